@@ -12,12 +12,10 @@ import (
 type userOpts struct {
 	bounds bool
 	pkg    string // "" = package main with the stdin driver; otherwise a library package exporting Handle
+	nilres bool   // every action is declared to return `any` and every second one returns an untyped nil (values are then compared in projection only)
+	shared bool   // productions of one rule with the same number of terms share ONE method (parameters of differing term types are `any`)
 	typed  bool   // every user rule gets its own result type *N<rule> (defined as Node), so that casts are exercised with distinct types
 }
-
-// typedRules switches goTermType to per-rule result types (set by genUserGo for the duration of one rendering;
-// renderings are sequential).
-var typedRules bool
 
 func goTermType(d *jDump, t jTerm) string {
 	if t.T {
@@ -29,7 +27,10 @@ func goTermType(d *jDump, t jTerm) string {
 	r := d.Rules[t.I]
 	switch r.Kind {
 	case "not_generated":
-		if typedRules {
+		if d.anyres {
+			return "any"
+		}
+		if d.typed {
 			return fmt.Sprintf("*N%d", r.Index)
 		}
 		return "*Node"
@@ -63,6 +64,10 @@ func prodClasses(d *jDump) []int {
 				sig = append(sig, goTermType(d, t))
 			}
 			k := strings.Join(sig, ",")
+			if d.shared {
+				// one interface-typed method per (rule, number of terms)
+				k = fmt.Sprint(len(sig))
+			}
 			if c, ok := seen[k]; ok {
 				cls[pi] = c
 			} else {
@@ -82,8 +87,9 @@ func genUserGo(d *jDump, o userOpts) string {
 		prelude = prelude[:i] + "var _ = bufio.NewReader\nvar _ = os.Stdin\nvar _ = time.Second\n" + prelude[j+len("//MAIN-END"):]
 	}
 	sb.WriteString(prelude)
-	typedRules = o.typed
-	defer func() { typedRules = false }()
+	d.shared = o.shared
+	d.anyres = o.nilres
+	d.typed = o.typed // prodClasses / goTermType (also used when the tables are loaded into the model) follow it
 	cls := prodClasses(d)
 	for _, r := range d.Rules {
 		if r.Kind != "not_generated" {
@@ -96,8 +102,28 @@ func genUserGo(d *jDump, o userOpts) string {
 			p := d.Prods[pi]
 			var params, args []string
 			for i, t := range p.Terms {
-				params = append(params, fmt.Sprintf("a%d %s", i, goTermType(d, t)))
+				ty := goTermType(d, t)
+				if d.shared {
+					// the method serves every production of its class: a parameter whose term type differs
+					// between them is declared "any"
+					for _, pj := range r.Prods {
+						if cls[pj] == pi && goTermType(d, d.Prods[pj].Terms[i]) != ty {
+							ty = "any"
+							break
+						}
+					}
+				}
+				params = append(params, fmt.Sprintf("a%d %s", i, ty))
 				args = append(args, fmt.Sprintf("a%d", i))
+			}
+			if o.nilres {
+				ret := "n"
+				if pi%2 == 1 {
+					ret = "nil"
+				}
+				fmt.Fprintf(&sb, "func (p *P) on_%s__c%d(%s) any {\n\tn := &Node{Prod: %d, Args: []any{%s}}\n\tp.log = append(p.log, \"R%d=\"+ser(n))\n\treturn %s\n}\n\n",
+					r.Name, pi, strings.Join(params, ", "), pi, strings.Join(args, ", "), pi, ret)
+				continue
 			}
 			if o.typed {
 				fmt.Fprintf(&sb, "func (p *P) on_%s__c%d(%s) *N%d {\n\tn := &Node{Prod: %d, Args: []any{%s}}\n\tp.log = append(p.log, \"R%d=\"+ser(n))\n\treturn (*N%d)(n)\n}\n\n",
